@@ -31,6 +31,12 @@ def load_corpus():
         md = json.loads(meta.read_text())
         for exp in md.get("expected", []):
             muts.append({"id": f"seeded-{meta.parent.name}-{exp['prop']}", "prop": exp["prop"], "rule": exp["rule"], "patch": meta.parent / "patch.diff", **({"key": exp["key"]} if exp.get("key") else {})})
+        # cross-silence: every other claimed check must stay silent on this change
+        claimed = json.loads((VERIF / "tools" / "claimed.json").read_text())
+        loud = {e["prop"] for e in md.get("expected", [])} | set(md.get("also_alarms", []))
+        for prop in claimed:
+            if prop not in loud:
+                muts.append({"id": f"seeded-{meta.parent.name}-silent-{prop}", "prop": prop, "rule": None, "twin": True, "patch": meta.parent / "patch.diff"})
     for p in sorted((HERE / "corpus").glob("*.py")):
         spec = importlib.util.spec_from_file_location(p.stem, p)
         m = importlib.util.module_from_spec(spec)
